@@ -143,11 +143,16 @@ static const place_t NEWS[] = { {N_LEAF1, -1, 3}, {N_LEAF1, -1, 13}, {N_LEAF2, N
 #define N_NEWS 8
 static const int LOSTS[] = {N_LEAF1, N_LEAF2, N_HUBA, N_UNKLEAF, N_LEAF3};
 #define N_LOSTS 5
-#define H_EVENTS (N_NEWS + N_LOSTS)
+/* a new-node notice for a board the library still holds connected: the lost notice never arrived (dropped for its CRC, or the board
+ * was moved and the new interface announces first), or the interface repeats its notice */
+static const place_t MOVES[] = { {N_LEAF1, -1, 13}, {N_LEAF1, -1, 3}, {N_LEAF2, -1, 14}, {N_LEAF2, N_HUBA, 4} };
+#define N_MOVES 4
+#define H_EVENTS (N_NEWS + N_LOSTS + N_MOVES)
 static const char *h_evname(int ev) {
 	static char b[4][64]; static int k; char *s = b[k++ & 3];
 	if (ev < N_LOSTS) snprintf(s, 64, "lost(%s)", CNAME[LOSTS[ev]]);
-	else { const place_t *p = &NEWS[ev - N_LOSTS]; snprintf(s, 64, "new(%s under %s local %d)", CNAME[p->c], p->parent_c < 0 ? "root" : CNAME[p->parent_c], p->local); }
+	else if (ev < N_LOSTS + N_NEWS) { const place_t *p = &NEWS[ev - N_LOSTS]; snprintf(s, 64, "new(%s under %s local %d)", CNAME[p->c], p->parent_c < 0 ? "root" : CNAME[p->parent_c], p->local); }
+	else { const place_t *p = &MOVES[ev - N_LOSTS - N_NEWS]; snprintf(s, 64, "new-without-lost(%s under %s local %d)", CNAME[p->c], p->parent_c < 0 ? "root" : CNAME[p->parent_c], p->local); }
 	return s;
 }
 static int present(int c) { return sbidx[c] >= 0 && sb_find(SB.n[sbidx[c]].addr) == sbidx[c]; }
@@ -167,6 +172,18 @@ static int h_apply(int ev) {
 		SB.n[node].present = 0; for (int i = 0; i < SB.nn; i++) { int k = SB.n[i].parent; while (k > 0) { if (k == node) { SB.n[i].present = 0; break; } k = SB.n[k].parent; } }
 		d[0] = ++SB.n[iface].tab_version; d[1] = SB.n[node].local; memcpy(d + 2, SB.n[node].uid, 7);
 		sb_send(iface, MSG_NODE_LOST, d, 9); vs_point(); hx_quiesce();
+		expect_ack(iface, d[0], what);
+	} else if (ev >= N_LOSTS + N_NEWS) {
+		const place_t *p = &MOVES[ev - N_LOSTS - N_NEWS]; if (!present(p->c)) return 0;
+		int iface = p->parent_c < 0 ? 0 : (present(p->parent_c) ? sbidx[p->parent_c] : -1); if (iface < 0) return 0;
+		int old = sbidx[p->c];
+		if (!(SB.n[old].parent == iface && SB.n[old].local == p->local)) {       /* elsewhere: the board leaves its place silently */
+			for (int i = 0; i < SB.nn; i++) if (SB.n[i].parent == iface && SB.n[i].present && SB.n[i].local == p->local) return 0;
+			if (SB.nn >= SB_MAXNODES - 1) return 0;
+			SB.n[old].present = 0; sbidx[p->c] = sb_add_node(iface, p->local, CUID[p->c]);
+		}
+		d[0] = ++SB.n[iface].tab_version; d[1] = p->local; memcpy(d + 2, CUID[p->c], 7);
+		sb_send(iface, MSG_NODE_NEW, d, 9); vs_point(); hx_quiesce();
 		expect_ack(iface, d[0], what);
 	} else {
 		const place_t *p = &NEWS[ev - N_LOSTS]; if (present(p->c)) return 0;
